@@ -3,6 +3,7 @@ from world import amounts, specials
 
 ID = "C14"
 LEAN_MODULES = ["QtyModel.Props.C14", "QtyModel.Props.Backends"]
+HARNESS_GROUPS = ('g_tconv', 'temp')
 TCONV_TYPES = ["Temperature", "S:Sn", "S:Sc", "S:Sa", "Length"]
 RULE = ("random conversion tables (0..12 rows, duplicates, missing pairs) over types with and without reference unit x "
         "all unit pairs x amount classes; the predefined temperature table: its rows, and all 9 unit pairs x finite "
